@@ -1,4 +1,4 @@
-import FluentModel.Unescape
+import FluentModel.UnescapeFast
 /-! Driver for area `unesc` (C13): payload = hex of the input (`-` = empty).
 Observation: `s:ok:<hex out>:<b|o>;w:ok:<hex writer content>` (the writer starts with the bytes of `[`);
 `s:panic` / `w:panic` / `…:outOfFuel` when the model predicts that outcome. -/
@@ -8,20 +8,19 @@ open FluentModel FluentModel.Unescape
 def writerPrefix : Bytes := [0x5B]
 
 def run (payload : String) : String :=
-  match hexDecode payload with
+  match hexDecodeFast payload with
   | none => "bad-input"
   | some bs =>
     if !(ByteArray.mk bs.toArray).validateUTF8 then "bad-input" else
-    -- the executable model appends to a `List` (quadratic): very long inputs are judged by the reference decoder of
-    -- the check only (the theorems cover them all the same)
-    if bs.length > 8192 then "unsupported" else
+    -- linear-time variants (`FluentModel.UnescapeFast`), proved equal to `unescapeUnicodeToString` /
+    -- `unescapeUnicode` on all inputs in `FluentProofs.UnescapeFast`: no length limit
     let s : Src := bs.toArray
-    let a := match unescapeUnicodeToString s with
-      | .done (o, owned) => "s:ok:" ++ hexEnc o ++ ":" ++ (if owned then "o" else "b")
+    let a := match unescapeUnicodeToStringFast s with
+      | .done (o, owned) => "s:ok:" ++ hexEncFast o ++ ":" ++ (if owned then "o" else "b")
       | .panic => "s:panic"
       | .outOfFuel => "s:outOfFuel"
-    let b := match unescapeUnicode writerPrefix s with
-      | .done o => "w:ok:" ++ hexEnc o
+    let b := match unescapeUnicodeFast writerPrefix s with
+      | .done o => "w:ok:" ++ hexEncFast o
       | .panic => "w:panic"
       | .outOfFuel => "w:outOfFuel"
     a ++ ";" ++ b
